@@ -53,19 +53,21 @@ def sgn(v):
 # ---------------------------------------------------------------------------------------------
 # slice near-int: split_float / maybe_int / is_almost_int / maybe_zero / split_translation
 # ---------------------------------------------------------------------------------------------
-TOLS = (1e-3, 1e-6, 1e-8, 2.0**-10, 2.0**-20)  # dyadic ones put points exactly at the tolerance for every k
-KS_Q = (0, 1, -1, 2, -2, 7, -7, 1000, -1000, 2**31, -(2**31), 2**40)
+# dyadic tolerances put points exactly at the tolerance for every k; 0.0 is a tolerance GIVEN as zero (nothing snaps)
+TOLS = (1e-3, 1e-6, 1e-8, 2.0**-10, 2.0**-20, 0.0)
+KS_Q = (0, 1, -1, 2, -2, 7, -7, 1000, -1000, 2**31, -(2**31), 2**40, 10**15, -(10**15))
 KS_T = KS_Q + (3, -3, 255, -256, 65535, 10**6, -(10**7), 2**52, -(2**52), 2**53, 2**60)
 
 
 def _fracs():
-    mags = [1e-9, 1e-7, 1e-3, 0.25, 0.4999999, 0.5, 0.5000001, 0.75, 0.999, 1 - 1e-9]
+    mags = [1e-15, 1e-9, 1e-7, 1e-3, 0.25, 0.4999999, 0.5, 0.5000001, 0.75, 0.999, 1 - 1e-9]
     for t in TOLS:
-        mags += [0.9 * t, t, 1.1 * t, 1 - t]
+        if t > 0:  # both edges of the window, additive; 1 - f*t approaches the next integer from below
+            mags += [0.9 * t, 0.999 * t, t, 1.001 * t, 1.1 * t, 1 - t, 1 - 0.999 * t, 1 - 1.001 * t]
     out = [0.0]
     for m in mags:
         out += [m, -m]
-    return tuple(out)
+    return tuple(dict.fromkeys(out))
 
 
 FRACS = _fracs()
@@ -187,10 +189,30 @@ def gen_align():
         for d in (-1, 0, 1):
             yield ("mult", -(2**k) + d, 16)
             yield ("mult", -(2**k) + d, 3)
+    # same values as numpy integers / floats (value-level comparison with the Python-int answer)
+    xs = list(range(-40, 300)) + [2**k + d for k in (10, 16, 30, 31, 32) for d in (-1, 0, 1)]
+    for enc in ("i64", "i32", "float"):
+        for x in xs:
+            for a in (1, 2, 3, 7, 16):
+                yield ("enc-" + enc, x, a)
 
 
 def run_align(case):
     kind, x, a = case
+    if kind.startswith("enc-"):
+        enc = kind[4:]
+        if enc == "i32" and not -(2**31) <= x < 2**31 - 64:
+            return R(outcome="enc-n/a:i32", nontrivial=False)
+        cv = {"i64": np.int64, "i32": np.int32, "float": float}[enc]
+        r = R(outcome=f"enc:{enc}")
+        for fn, args in ((M.align_down, (x, a)), (M.align_up, (x, a)), (M.align_up_pow2, (x,)), (M.align_down_pow2, (x,))):
+            if fn is M.align_down_pow2 and x <= 0:
+                continue
+            want = fn(*args)
+            got = fn(cv(args[0]), *[cv(v) if enc != "float" else v for v in args[1:]])
+            if got != want or (fn in (M.align_up_pow2, M.align_down_pow2) and not isinstance(got, int)):
+                r.fail(f"{fn.__name__}:encoding:{enc}", f"{fn.__name__}({enc}{args!r}) -> {got!r}, Python ints give {want!r}")
+        return r
     if kind == "mult":
         r = R(outcome=f"mult:{sgn(x)}:{'aligned' if x % a == 0 else 'between'}")
         y = M.align_down(x, a)
@@ -261,20 +283,22 @@ def gen_sg_d(tier):
     return gen
 
 
-SG_R_LEFT = (0.0, 0.2, -0.2, 3.0, 2.996, 3.004, -7.5, 1000.3, -(10.0**6) + 0.4, 10.0**7 + 0.3)
+SG_R_LEFT = (0.0, 0.2, -0.2, 3.0, 2.996, 3.004, -7.5, 3.5, -0.5, 1000.3, -(10.0**6) + 0.4, 10.0**7 + 0.3)
+SG_R_BASE = (0.0, 5e5, 5e5 + 1e-3)  # absolute origin the lattice position is added to (UTM-sized, and 1 mm off a whole number)
 SG_R_SPAN = (0.0, 0.005, 0.1, 0.99, 0.995, 1.0, 1.004, 1.0099, 1.0101, 2.5, 7.0, 100.5, 12345.678, 2e6)
-SG_R_RES = (1.0, -1.0, 10.0, -10.0, 0.25, -0.25, 30.0, -30.0, 0.1, -0.1, 1 / 3, -1 / 3)
+SG_R_RES = (1.0, -1.0, 10.0, -10.0, 0.25, -0.25, 30.0, -30.0, 0.1, -0.1, 1 / 3, -1 / 3, 4.5e-6, -4.5e-6, 1e5, -1e5)
 SG_R_OFF = (0.0, 0.5, 0.25, 0.9, 0.1, 0.7, None)
 SG_R_TOL = (0.0, 1e-6, 0.01, 0.1)
 
 
 def gen_sg_r():
-    for left in SG_R_LEFT:
-        for span in SG_R_SPAN:
-            for res in SG_R_RES:
-                for off in SG_R_OFF:
-                    for tol in SG_R_TOL:
-                        yield (left, span, res, off, tol)
+    for base in SG_R_BASE:
+        for left in SG_R_LEFT:
+            for span in SG_R_SPAN:
+                for res in SG_R_RES:
+                    for off in SG_R_OFF:
+                        for tol in SG_R_TOL:
+                            yield (base, left, span, res, off, tol)
 
 
 def _judge_snap_grid(r, x0, x1, res, off, tol, exact):
@@ -296,7 +320,11 @@ def _judge_snap_grid(r, x0, x1, res, off, tol, exact):
     TX = Fr(tx)
     L = TX if res > 0 else TX - nx * a
     Rt = L + nx * a
-    eps = Fr(0) if exact else REL * (max(abs(X0), abs(X1)) + a)
+    # R slack: a few ulps of the largest coordinate involved (the implementation rounds x0-off, the quotient, the
+    # product and the sum once each) plus 1e-9 pixel - NOT a fraction of the coordinate, which at 5e5 m would be
+    # a hundred 4.5e-6 pixels
+    ulps = Fr(8 * math.ulp(float(max(abs(X0), abs(X1), abs(L), abs(Rt)))))
+    eps = Fr(0) if exact else ulps + REL * a
     if off is None:
         # floating: origin is the in-point on the side the grid starts from
         anchor = X0 if res > 0 else X1
@@ -305,7 +333,7 @@ def _judge_snap_grid(r, x0, x1, res, off, tol, exact):
     else:
         q = (L - Fr(off) * a) / a
         dist = abs(q - round(q))
-        if dist > (0 if exact else PIX):
+        if dist > (0 if exact else REL + ulps / a):
             r.fail(f"snap_grid:not-aligned:{cls}", what + f": left edge is {float(dist)!r} px off the requested fraction")
     if L > X0 + ta + eps:
         r.fail(f"snap_grid:left-not-covered:{cls}", what + f": left edge {float(L)!r} > x0 + tol*px")
@@ -341,13 +369,14 @@ def run_sg_d(case):
 
 
 def run_sg_r(case):
-    left, span, res, off, tol = case
+    base, left, span, res, off, tol = case
     a = abs(res)
-    x0 = left * a
+    x0 = base + left * a
     x1 = x0 + span * a
     if x1 < x0:
         return R(outcome="precondition-x1<x0", nontrivial=False)
-    r = R(outcome=f"R:{'pos' if res > 0 else 'neg'}:{'float' if off is None else 'snap'}:tol{tol}:{'wide' if span >= 1 else 'sub-pixel'}")
+    r = R(outcome=f"R:{'pos' if res > 0 else 'neg'}:{'float' if off is None else 'snap'}:tol{tol}:{'wide' if span >= 1 else 'sub-pixel'}"
+                  f":{'tiny-px' if a < 1e-3 else ('huge-px' if a > 1e3 else 'px')}")
     _judge_snap_grid(r, x0, x1, res, off, tol, exact=False)
     return r
 
@@ -355,12 +384,15 @@ def run_sg_r(case):
 # ---------------------------------------------------------------------------------------------
 # slices snap-scale / snap-affine
 # ---------------------------------------------------------------------------------------------
-SS_N = (1, 2, 3, 4, 5, 7, 10, 30, 100, 1000)
-SS_TOL = (1e-3, 1e-6, 1e-8)
+SS_N = (1, 2, 3, 4, 5, 7, 10, 30, 100, 1000, 1024)
+SS_TOL = (1e-3, 1e-6, 1e-8, 0.0)
+SS_FORMS = ("n", "1/n", "1/(n+d)", "n*(1+d)", "1/(n*(1+d))")  # additive and multiplicative readings, both branches
 
 
 def _ss_deltas(tol):
-    return (0.0, 1e-12, 1e-9, 0.5 * tol, 0.9 * tol, 1.1 * tol, 2 * tol, 10 * tol, 1e-2, 0.3)
+    # both edges of the window (0.9 / 0.999 / 1.001 / 1.1 x tol) plus far inside / far outside
+    return tuple(dict.fromkeys((0.0, 1e-12, 1e-9, 0.5 * tol, 0.9 * tol, 0.999 * tol, 1.001 * tol, 1.1 * tol, 2 * tol,
+                                10 * tol, 1e-2, 0.3)))
 
 
 def gen_ss():
@@ -369,9 +401,10 @@ def gen_ss():
             for sg in (1, -1):
                 for d in _ss_deltas(tol):
                     for ds in (1, -1):
-                        for form in ("n", "1/n", "1/(n+d)"):
+                        for form in SS_FORMS:
                             yield (form, sg * n, ds * d, tol)
-        for s in (0.0, 1e-12, -1e-12, 0.5 * tol, -0.9 * tol, 1.1 * tol, 0.6, -0.6, 0.75, 3.478, 0.4, 2 / 3, -2 / 7):
+        for s in (0.0, -0.0, 1e-12, -1e-12, 1e-15, -1e-15, 0.5 * tol, -0.9 * tol, 0.999 * tol, -1.001 * tol, 1.1 * tol,
+                  0.6, -0.6, 0.75, 3.478, 0.4, 2 / 3, -2 / 7, 1e15, -1e15, 1e15 + 0.125, 2.0**52 + 0.5, 1e300, 1e-300):
             yield ("raw", s, 0.0, tol)
 
 
@@ -382,6 +415,10 @@ def _mk_scale(form, n, d):
         return 1 / n + d / (n * n)  # ~ d away from n in the inverse
     if form == "1/(n+d)":
         return 1 / (n + d)
+    if form == "n*(1+d)":
+        return n * (1 + d)
+    if form == "1/(n*(1+d))":
+        return 1 / (n * (1 + d))
     return n  # raw
 
 
@@ -423,8 +460,13 @@ def judge_snap_scale(r, s, got, tol, tag):
 def run_ss(case):
     form, n, d, tol = case
     s = _mk_scale(form, n, d)
-    got = M.snap_scale(s, tol)
     r = R(outcome=f"{form}:")
+    try:
+        got = M.snap_scale(s, tol)
+    except ZeroDivisionError as e:
+        r.outcome = "raised:ZeroDivisionError"
+        return r.fail("snap_scale:zero-scale-zero-tol" if s == 0 and tol == 0 else f"snap_scale:ZeroDivisionError:{form}",
+                      f"snap_scale({s!r},{tol!r}) raises ZeroDivisionError: {e}")
     k = judge_snap_scale(r, s, got, tol, f"snap_scale:{form}")
     r.outcome = f"{form}:{k}:{sgn(s)}"
     again = M.snap_scale(got, tol)
@@ -462,23 +504,23 @@ def gen_sa():
                                     yield (ti, sx, dsx, sy, dsy, tx, dt, wx, wy)
 
 
-def run_sa(case):
-    ti, sx, dsx, sy, dsy, tx, dt, wx, wy = case
+def _judge_sa(r, a, ti):
+    """a: 6 floats (sx, wx, tx, wy, sy, ty); ti: index into SA_TOLS (0 = call with the defaults)."""
     ttol, stol, tol = SA_TOLS[ti]
-    sx_, sy_ = sx + dsx, sy + dsy
-    tx_, ty_ = tx + dt, -tx - 2 * dt + 3
-    A = Affine(sx_, wx, tx_, wy, sy_, ty_)
+    A = Affine(*a)
     use_default = ti == 0
     B = M.snap_affine(A) if use_default else M.snap_affine(A, ttol=ttol, stol=stol, tol=tol)
     a, b = tuple(A)[:6], tuple(B)[:6]
+    wx, wy = a[1], a[3]
     rotated = abs(Fr(wx)) > Fr(tol) or abs(Fr(wy)) > Fr(tol)
     what = f"snap_affine({a!r}, ttol={ttol}, stol={stol}, tol={tol}) -> {b!r}"
+    if tuple(A)[:6] != a:
+        r.fail("snap_affine:input-modified", what)
     if rotated:
-        r = R(outcome="rotated")
+        r.outcome = "rotated"
         if a != b:
             r.fail("snap_affine:rotated-changed", what)
-        return r
-    r = R(outcome="st")
+        return
     if b[1] != 0 or b[3] != 0:
         r.fail("snap_affine:shear-kept", what)
     kinds = []
@@ -499,6 +541,68 @@ def run_sa(case):
     C = M.snap_affine(B) if use_default else M.snap_affine(B, ttol=ttol, stol=stol, tol=tol)
     if tuple(C)[:6] != b:
         r.fail("snap_affine:not-idempotent", what + f" -> {tuple(C)[:6]!r}")
+
+
+def run_sa(case):
+    ti, sx, dsx, sy, dsy, tx, dt, wx, wy = case
+    r = R(outcome="st")
+    _judge_sa(r, (sx + dsx, wx, tx + dt, wy, sy + dsy, -tx - 2 * dt + 3), ti)
+    return r
+
+
+# windows: ONE component at a time walked across both edges of its tolerance window, additive and multiplicative
+# reading, integer and reciprocal branch, scales just below 1 and near zero, negative, huge and tiny translations
+SW_F = (0.9, 0.999, 1.001, 1.1, -0.9, -0.999, -1.001, -1.1)
+SW_SC = (1.0, -1.0, 2.0, -3.0, 0.5, -0.25, 1 / 3, 1 / 1024, 1000.0)
+SW_T = (0.0, 10.0, -7.0, 0.5, 5e5, -6e6, 1e15)
+SW_BASE = ((1.0, 0.0, 0.0, 0.0, 1.0, 0.0), (2.0, 0.0, 10.0, 0.0, -0.5, -7.0), (1 / 3, 0.0, 5e5, 0.0, -30.0, 6e6 + 0.3))
+AFFINE_ST_TOL = 1e-10  # documented default of is_affine_st
+
+
+def gen_sw():
+    for ti in range(len(SA_TOLS)):
+        ttol, stol, tol = SA_TOLS[ti]
+        for bi in range(len(SW_BASE)):
+            for f in SW_F:
+                for comp in (0, 4):  # sx, sy
+                    for v in SW_SC:
+                        for rd in ("add", "mul", "inv"):
+                            yield (ti, bi, comp, v, f, stol, rd)
+                for comp in (2, 5):  # tx, ty
+                    for v in SW_T:
+                        for rd in ("add", "mul"):
+                            yield (ti, bi, comp, v, f, ttol, rd)
+                for comp in (1, 3):  # wx, wy: windows of snap_affine's tol and of is_affine_st's default
+                    for wt in (tol, AFFINE_ST_TOL):
+                        for other in (0.0, 0.5 * wt, 2 * wt):
+                            yield (ti, bi, comp, other, f, wt, "add")
+
+
+def run_sw(case):
+    ti, bi, comp, v, f, t, rd = case
+    a = list(SW_BASE[bi])
+    if comp in (1, 3):
+        a[comp] = f * t
+        a[4 - comp] = v  # the other off-diagonal entry
+    elif rd == "add":
+        a[comp] = v + f * t
+    elif rd == "mul":
+        a[comp] = v * (1 + f * t)
+    else:  # deviation applied to the reciprocal
+        a[comp] = 1 / (1 / v + f * t)
+    r = R(outcome="st")
+    _judge_sa(r, tuple(a), ti)
+    r.outcome = f"{('sx', 'wx', 'tx', 'wy', 'sy', 'ty')[comp]}:{rd}:{'in' if abs(f) < 1 else 'out'}:" + r.outcome
+    # is_affine_st: exactly "both off-diagonal entries strictly below tol"
+    A = Affine(*a)
+    for tol_ in (None, SA_TOLS[ti][2]):
+        got = M.is_affine_st(A) if tol_ is None else M.is_affine_st(A, tol_)
+        tt = Fr(AFFINE_ST_TOL if tol_ is None else tol_)
+        want = abs(Fr(a[1])) < tt and abs(Fr(a[3])) < tt
+        if bool(got) != want:
+            which = "wx" if abs(Fr(a[1])) >= tt else "wy"
+            r.fail(f"is_affine_st:{'false-positive:' + which if got else 'false-negative'}",
+                   f"is_affine_st({tuple(a)!r}, tol={'default' if tol_ is None else tol_}) -> {got}")
     return r
 
 
@@ -555,8 +659,32 @@ def run_rws(case):
         if (Ra.c, Ra.f) != (tx, ty) or (Wa.c, Wa.f, Sa.c, Sa.f) != (0, 0, 0, 0):
             r.fail("decompose_rws:affine:translation", what + ": translation not carried by R alone")
         Rm_, Wm_, Sm_ = (np.array([[v.a, v.b], [v.d, v.e]]) for v in (Ra, Wa, Sa))
+        # same matrix through the ndarray entry point: identical factors
+        for u, v in zip((Rm_, Wm_, Sm_), M.decompose_rws(A.copy())):
+            if not np.array_equal(u, v):
+                r.fail("decompose_rws:affine-vs-ndarray", what + ": Affine and ndarray entry points give different factors")
+                break
+        # apply_affine broadcasts A*(x, y) and leaves its inputs alone
+        gx, gy = np.meshgrid(np.arange(-2.0, 3.0), np.arange(0.0, 3.0))
+        kx, ky = gx.copy(), gy.copy()
+        ax_, ay_ = M.apply_affine(AA, gx, gy)
+        wx_ = np.array([[float(Fr(a) * Fr(x) + Fr(b) * Fr(y) + Fr(tx)) for x, y in zip(rx_, ry_)] for rx_, ry_ in zip(kx, ky)])
+        wy_ = np.array([[float(Fr(c) * Fr(x) + Fr(d) * Fr(y) + Fr(ty)) for x, y in zip(rx_, ry_)] for rx_, ry_ in zip(kx, ky)])
+        if ax_.shape != gx.shape or ay_.shape != gx.shape or max(np.abs(ax_ - wx_).max(), np.abs(ay_ - wy_).max()) > 1e-12 * (scale * 4 + 7.5):
+            r.fail("apply_affine:values", what.replace("decompose_rws", "apply_affine") + " on a 3x5 grid differs from A*(x,y)")
+        if not (np.array_equal(gx, kx) and np.array_equal(gy, ky)):
+            r.fail("apply_affine:input-modified", what.replace("decompose_rws", "apply_affine"))
     else:
-        Rm_, Wm_, Sm_ = M.decompose_rws(A.copy())
+        Ain = A.copy()
+        Rm_, Wm_, Sm_ = M.decompose_rws(Ain)
+        if not np.array_equal(Ain, A):
+            r.fail("decompose_rws:input-modified", what + ": the caller's matrix was changed in place")
+        if kind == "m" and all(float(v).is_integer() for v in (a, b, c, d)):
+            # same values as an integer matrix
+            for u, v in zip((Rm_, Wm_, Sm_), M.decompose_rws(A.astype("int64"))):
+                if not np.allclose(u, v, rtol=0, atol=tol):
+                    r.fail("decompose_rws:encoding:int64", what + ": int64 matrix gives different factors")
+                    break
     if np.abs(Rm_ @ Wm_ @ Sm_ - A).max() > tol:
         r.fail(f"decompose_rws:product:{cls}", what + f": R@W@S differs from A by {np.abs(Rm_ @ Wm_ @ Sm_ - A).max()!r}")
     if np.abs(Rm_.T @ Rm_ - np.eye(2)).max() > RWS_TOL or abs(np.linalg.det(Rm_) - 1) > RWS_TOL:
@@ -635,7 +763,14 @@ def run_afp(case):
     if arr.shape != (len(P), 2) or arr.tolist() != [list(p) for p in P] or [q.xy for q in M.unstack_xy(arr)] != P:
         r.fail("stack_xy:round-trip", f"stack_xy/unstack_xy of {P!r} -> {arr.tolist()!r}")
     if mi == 0:
-        nn, NA = M.norm_xy(arr.copy())
+        src_ = arr.copy()
+        nn, NA = M.norm_xy(src_)
+        buf = np.zeros_like(arr)
+        nn2, NA2 = M.norm_xy(src_, out=buf)
+        if not np.array_equal(src_, arr):
+            r.fail("norm_xy:input-modified", f"norm_xy({P!r}) changed its input in place")
+        if nn2 is not buf or not np.array_equal(nn2, nn) or tuple(NA2) != tuple(NA):
+            r.fail("norm_xy:out-param", f"norm_xy({P!r}, out=buf) does not return the same result in buf")
         dist = float(np.sqrt((nn**2).sum(axis=1)).mean())
         if np.abs(nn.mean(axis=0)).max() > 1e-9 or abs(dist - math.sqrt(2)) > 1e-9:
             r.fail(f"norm_xy:not-normalised:n{len(P)}", f"norm_xy({P!r}): mean {nn.mean(axis=0).tolist()!r}, mean distance {dist!r}")
@@ -648,10 +783,15 @@ def run_afp(case):
         gx, gy = B * (x, y)
         wx = float(Fr(A.a) * Fr(x) + Fr(A.b) * Fr(y) + Fr(A.c))
         wy = float(Fr(A.d) * Fr(x) + Fr(A.e) * Fr(y) + Fr(A.f))
-        if abs(gx - wx) > 1e-9 * (abs(wx) + px) or abs(gy - wy) > 1e-9 * (abs(wy) + px):
+        # least squares on raw coordinates: error ~ eps * value (observed <= 2e-14 relative); 1e-11 of the value + 1e-9 pixel
+        if abs(gx - wx) > 1e-11 * abs(wx) + 1e-9 * px or abs(gy - wy) > 1e-11 * abs(wy) + 1e-9 * px:
             r.fail(f"affine_from_pts:n{len(P)}:frame{fi}",
                    f"affine_from_pts(X={P!r}, Y=A*X, A={AF_MAPS[mi]!r}) -> {tuple(B)[:6]!r}: at {(x, y)!r} got {(gx, gy)!r} want {(wx, wy)!r}")
             break
+    if all(float(v).is_integer() for q in Y for v in q):
+        Bi = M.affine_from_pts([xy_(int(p[0]), int(p[1])) for p in P], [xy_(int(q[0]), int(q[1])) for q in Y])
+        if tuple(Bi) != tuple(B):
+            r.fail("affine_from_pts:encoding:int", f"X={P!r} as ints -> {tuple(Bi)[:6]!r}, as floats -> {tuple(B)[:6]!r}")
     lin = max(abs(u - v) for u, v in zip((B.a, B.b, B.d, B.e), (A.a, A.b, A.d, A.e)))
     if lin > 1e-9 * (px / sc) * max(1.0, max(abs(ox), abs(oy)) / sc) and not r.fails:
         r.fail(f"affine_from_pts:linear-part:n{len(P)}:frame{fi}", f"X={P!r} A={AF_MAPS[mi]!r} -> {tuple(B)[:6]!r}")
@@ -688,27 +828,46 @@ P2_FRAMES = (((0.0, 0.0), 1.0), ((100.0, -50.0), 1.0), ((1000.0, -2000.0), 10.0)
 P2_GRIDS4 = ((2, 2), (2, 3), (3, 2), (2, 4), (4, 2))
 P2_GRIDS9 = ((3, 3), (3, 4), (4, 3), (4, 4), (5, 5), (3, 5), (7, 7))
 P2_TRIPLES = tuple(s for s in AF_SUBSETS if len(s) == 3)
+_SHX, _ST, _R133, _TR = Affine(1.0, 0.5, 0.0, 0.0, 1.0, 0.0), Affine(2.0, 0.0, -3.0, 0.0, 0.5, 1.0), Affine.rotation(-133), Affine.translation(3.0, -2.0)
 P2_XFORMS = (
-    ("scale-translate", (2.0, 0.0, -3.0, 0.0, 0.5, 1.0)),
+    ("scale-translate", tuple(_ST)[:6]),
+    ("translate", tuple(_TR)[:6]),
+    ("mirror-x", (-1.0, 0.0, 2.0, 0.0, 1.0, 0.0)),
+    ("rot180", (-1.0, 0.0, 2.0, 0.0, -1.0, 2.0)),
     ("rot90", (0.0, -1.0, 2.0, 1.0, 0.0, -1.0)),
-    ("shear-x", (1.0, 0.5, 0.0, 0.0, 1.0, 0.0)),
+    ("shear-x", tuple(_SHX)[:6]),
     ("shear-y", (1.0, 0.0, 0.0, -0.25, 1.0, 2.0)),
-    ("rot-133", tuple(Affine.rotation(-133))[:6]),
+    ("rot-133", tuple(_R133)[:6]),
+    # compositions, both orders
+    ("shear-x*scale-translate", tuple(_SHX * _ST)[:6]),
+    ("scale-translate*shear-x", tuple(_ST * _SHX)[:6]),
+    ("rot-133*translate", tuple(_R133 * _TR)[:6]),
+    ("translate*rot-133", tuple(_TR * _R133)[:6]),
 )
+P2_VARIANTS = ("fortran", "strided", "int", "readonly", "dup")
 
 
-def gen_p2():
-    for fi in range(len(P2_FRAMES)):
-        for mi, (deg, _, _) in enumerate(P2_MAPS):
-            if deg == "affine":
-                for ti in range(len(P2_TRIPLES)):
-                    yield ("fit3", fi, mi, ti)
-            if deg in ("affine", "bilinear"):
-                for gi in range(len(P2_GRIDS4)):
-                    yield ("fit4", fi, mi, gi)
-            for gi in range(len(P2_GRIDS9)):
-                yield ("fit9", fi, mi, gi)
-    yield ("too-few", 0, 0, 0)
+def gen_p2(tier):
+    triples = range(len(P2_TRIPLES)) if tier == "thorough" else range(0, len(P2_TRIPLES), 4)
+
+    def gen():
+        for fi in range(len(P2_FRAMES)):
+            for mi, (deg, _, _) in enumerate(P2_MAPS):
+                if deg == "affine":
+                    for ti in triples:
+                        yield ("fit3", fi, mi, ti, "plain")
+                        yield ("fit3", fi, mi, ti, "readonly")
+                if deg in ("affine", "bilinear"):
+                    for gi in range(len(P2_GRIDS4)):
+                        for var in ("plain",) + P2_VARIANTS:
+                            yield ("fit4", fi, mi, gi, var)
+                for gi in range(len(P2_GRIDS9)):
+                    for var in ("plain",) + P2_VARIANTS:
+                        yield ("fit9", fi, mi, gi, var)
+        for n in (0, 1, 2):
+            yield ("too-few", n, 0, 0, "plain")
+
+    return gen
 
 
 def _p2_eval(tabs, u, v):
@@ -719,14 +878,31 @@ def _p2_eval(tabs, u, v):
     return out
 
 
+def _p2_grad(tabs, u, v):
+    """bound of |d target / d(u,v)| per output axis (floats): how far an input rounding error is amplified"""
+    u, v = abs(float(u)), abs(float(v))
+    out = []
+    for t in tabs:
+        g = 0.0
+        for i in range(3):
+            for j in range(3):
+                c = abs(t[i][j])
+                if c and (i or j):
+                    g += c * ((i * u ** (i - 1) * v**j if i else 0.0) + (j * u**i * v ** (j - 1) if j else 0.0))
+        out.append(g)
+    return out
+
+
 def run_p2(case):
-    kind, fi, mi, gi = case
+    import pickle  # pylint: disable=import-outside-toplevel
+
+    kind, fi, mi, gi, var = case
     if kind == "too-few":
         r = R(outcome="too-few", nontrivial=False)
-        pts = np.array([[0.0, 0.0], [1.0, 2.0]])
+        pts = np.array([[0.0, 0.0], [1.0, 2.0]])[:fi]
         try:
             M.Poly2d.fit(pts, pts)
-            r.fail("Poly2d.fit:two-points-accepted", "Poly2d.fit with 2 points did not raise ValueError")
+            r.fail("Poly2d.fit:too-few-points-accepted", f"Poly2d.fit with {fi} points did not raise ValueError")
         except ValueError:
             pass
         return r
@@ -740,31 +916,62 @@ def run_p2(case):
         nu, nv = (P2_GRIDS4 if kind == "fit4" else P2_GRIDS9)[gi]
         uv = [(i, j) for i in range(nu) for j in range(nv)]
         gname = f"{nu}x{nv}"
+    if var == "dup":
+        uv = uv + [uv[0], uv[-1]]  # repeated control points
     S = sum(abs(c) for t in tabs for row in t for c in row if abs(c) < 1e4) + 1.0  # output units per grid step
+    in_ulp = 64 * math.ulp(max(abs(ox), abs(oy), 1.0) + sc * 8) / sc  # input rounding, in grid steps
 
     def want_at(x, y):
         u = (Fr(x) - Fr(ox)) / Fr(sc)
         v = (Fr(y) - Fr(oy)) / Fr(sc)
-        return [float(w) for w in _p2_eval(tabs, u, v)]
+        return [float(w) for w in _p2_eval(tabs, u, v)], _p2_grad(tabs, u, v)
 
     aa = np.array([[ox + sc * u, oy + sc * v] for u, v in uv], dtype="float64")
     bbx = [_p2_eval(tabs, Fr(u), Fr(v)) for u, v in uv]
     bb = np.array([[float(a), float(b)] for a, b in bbx], dtype="float64")
     assert all(Fr(float(a)) == a and Fr(float(b)) == b for a, b in bbx), case  # exactly representable
     cls = f"{kind}:{deg}:{gname}"
-    r = R(outcome=f"{kind}:{deg}")
-    what = f"Poly2d.fit({gname} grid at origin {(ox, oy)!r} step {sc!r}, map #{mi} {deg})"
-    p = M.Poly2d.fit(aa.copy(), bb.copy())
+    r = R(outcome=f"{kind}:{deg}:{var}")
+    what = f"Poly2d.fit({gname} grid at origin {(ox, oy)!r} step {sc!r}, map #{mi} {deg}, arrays {var})"
 
     def cmp(got, x, y, key, how):
-        w = want_at(x, y)
-        for g, ww in zip(got, w):
-            if not abs(float(g) - ww) <= 1e-9 * (abs(ww) + S):
+        # slack: 1e-12 of the value (a handful of roundings at its magnitude) + 1e-9 grid step of output
+        # + the input-coordinate rounding (ulps of the frame origin) amplified by the target's gradient
+        w, gr = want_at(x, y)
+        for g, ww, gg in zip(got, w, gr):
+            if not abs(float(g) - ww) <= 1e-12 * abs(ww) + 1e-9 * S + gg * in_ulp:
                 r.fail(key, what + f": {how} at {(float(x), float(y))!r} gives {[float(t) for t in got]!r}, want {w!r}")
                 return False
         return True
 
+    # the caller's arrays in the requested layout
+    if var == "fortran":
+        a_in, b_in = np.asfortranarray(aa), np.asfortranarray(bb)
+    elif var == "strided":
+        big = np.full((aa.shape[0] * 2, 5), 1e30)
+        big[::2, 1:3] = aa
+        a_in = big[::2, 1:3]
+        b_in = bb[::-1][::-1]
+    elif var == "int":
+        a_in, b_in = aa.astype("int64"), bb
+        if not np.array_equal(a_in.astype("float64"), aa):
+            return R(outcome="enc-n/a:int", nontrivial=False)
+    elif var == "readonly":
+        a_in, b_in = aa.copy(), bb.copy()
+        a_in.setflags(write=False)
+        b_in.setflags(write=False)
+    else:
+        a_in, b_in = aa.copy(), bb.copy()
+    try:
+        p = M.Poly2d.fit(a_in, b_in)
+    except ValueError as e:
+        if "read-only" in str(e):
+            return r.fail("Poly2d.fit:writes-into-input", what + f": {e}")
+        raise
+    if not (np.array_equal(np.asarray(a_in, dtype="float64"), aa) and np.array_equal(b_in, bb)):
+        r.fail("Poly2d.fit:input-modified", what + ": the caller's control point arrays were changed in place")
     got = p(aa)
+    g0 = got.copy()
     got2 = p(aa[:, 0], aa[:, 1])
     if got.shape != aa.shape or got2.shape != (2, aa.shape[0]):
         return r.fail("Poly2d.call:shape", what + f": shapes {got.shape}, {got2.shape}")
@@ -773,6 +980,8 @@ def run_p2(case):
             break
         if not cmp(got2[:, k], aa[k, 0], aa[k, 1], f"Poly2d.call:xy-form:{cls}", "p(x, y)"):
             break
+    if var != "plain":
+        return r  # other layouts: fit, input preservation and reproduction only
     # other points inside and just outside the grid (basis is in general position on the grid)
     mu = max(u for u, _ in uv)
     mv = max(v for _, v in uv)
@@ -791,24 +1000,51 @@ def run_p2(case):
         for i, j in itertools.product(range(3), range(2)):
             if not cmp(g[:, i, j], xs[i], ys[j], f"Poly2d.grid2d:{kind}", "grid2d"):
                 break
-    # chaining a linear map on the input side: p2(q) == p(T*q)
+    # chaining a linear map on the input side: p2(q) == p(T*q); directly and in two steps
+    F = Affine.translation(ox, oy) * Affine.scale(sc)
     for name, t6 in P2_XFORMS:
         T = Affine(*t6)
-        # T maps "cropped" coordinates q to the frame of the fit: build it relative to the frame
-        Tf = Affine.translation(ox, oy) * Affine.scale(sc) * T
-        p2 = p.with_input_transform(Tf)
-        ok = True
-        for u, v in ((0.0, 0.0), (1.0, 0.5), (mu - 0.5, mv), (0.25, 1.0)):
-            q = (~T) * (u, v)  # any float pair will do; the expectation is computed from q itself
-            fx = Fr(Tf.a) * Fr(q[0]) + Fr(Tf.b) * Fr(q[1]) + Fr(Tf.c)
-            fy = Fr(Tf.d) * Fr(q[0]) + Fr(Tf.e) * Fr(q[1]) + Fr(Tf.f)
-            gq = p2(np.array([[q[0], q[1]]]))[0]
-            ok = cmp(gq, fx, fy, f"Poly2d.with_input_transform:{name}:{kind}", f"p.with_input_transform({t6!r})({q!r})")
-            if ok:
-                gq = p2(q[0], q[1])
-                ok = cmp(gq, fx, fy, f"Poly2d.with_input_transform:{name}:{kind}:xy-form", f"p.with_input_transform({t6!r})(x,y)")
-            if not ok:
-                break
+        Tf = F * T  # maps "cropped" coordinates q to the frame of the fit
+        aligned = T.b == 0 and T.d == 0
+        for chain, p2 in (("", p.with_input_transform(Tf)), (":two-steps", p.with_input_transform(F).with_input_transform(T))):
+            ok = True
+            qs = [(~T) * uv_ for uv_ in ((0.0, 0.0), (1.0, 0.5), (mu - 0.5, mv), (0.25, 1.0))]  # any floats will do
+            for q in qs:
+                fx = Fr(Tf.a) * Fr(q[0]) + Fr(Tf.b) * Fr(q[1]) + Fr(Tf.c)
+                fy = Fr(Tf.d) * Fr(q[0]) + Fr(Tf.e) * Fr(q[1]) + Fr(Tf.f)
+                key = f"Poly2d.with_input_transform:{name}{chain}:{kind}"
+                ok = cmp(p2(np.array([[q[0], q[1]]]))[0], fx, fy, key, f"p.with_input_transform({t6!r})({q!r})")
+                ok = ok and cmp(p2(q[0], q[1]), fx, fy, key + ":xy-form", f"p.with_input_transform({t6!r})(x,y)")
+                if not ok:
+                    break
+            # grid2d is only defined for axis-aligned chains: it must refuse (raise) anything else, never answer wrongly
+            gx, gy = np.array([q[0] for q in qs[:3]]), np.array([q[1] for q in qs[:2]])
+            try:
+                gg = p2.grid2d(gx, gy)
+            except Exception:  # pylint: disable=broad-except
+                gg = None
+                if aligned:
+                    r.fail(f"Poly2d.grid2d:refused-axis-aligned:{name}{chain}", what + f": grid2d raised for input transform {t6!r}")
+            if gg is not None and ok:
+                for i, j in itertools.product(range(3), range(2)):
+                    fx = Fr(Tf.a) * Fr(gx[i]) + Fr(Tf.b) * Fr(gy[j]) + Fr(Tf.c)
+                    fy = Fr(Tf.d) * Fr(gx[i]) + Fr(Tf.e) * Fr(gy[j]) + Fr(Tf.f)
+                    key = f"Poly2d.grid2d:{'axis-aligned-chain' if aligned else 'not-axis-aligned-accepted'}:{name}{chain}"
+                    if not cmp(gg[:, i, j], fx, fy, key, f"with_input_transform({t6!r}).grid2d"):
+                        break
+    # state: the parent is untouched by derived objects / evaluations, survives pickling, refit gives the same answer
+    if not np.array_equal(p(aa), g0):
+        r.fail("Poly2d:parent-changed-by-derived", what + ": p(pts) differs after with_input_transform/grid2d calls")
+    try:
+        pp = pickle.loads(pickle.dumps(p))
+        p2p = pickle.loads(pickle.dumps(p.with_input_transform(Affine(*P2_XFORMS[5][1]))))
+    except Exception as e:  # pylint: disable=broad-except
+        r.fail("Poly2d:not-picklable", what + f": {type(e).__name__}: {e}")
+    else:
+        if not np.array_equal(pp(aa), g0) or not np.array_equal(p2p(aa), p.with_input_transform(Affine(*P2_XFORMS[5][1]))(aa)):
+            r.fail("Poly2d:pickle-differs", what + ": unpickled clone evaluates differently")
+    if not np.array_equal(M.Poly2d.fit(aa.copy(), bb.copy())(aa), g0):
+        r.fail("Poly2d.fit:second-fit-differs", what)
     return r
 
 
@@ -819,29 +1055,92 @@ AX_N = (1, 2, 3, 5, 16)
 AX_RES = (1.0, -1.0, 0.25, 10.0, -30.0, 0.1, -1 / 3)
 AX_X0 = (0.0, -7.5, 5e5, 6e6 + 0.3)
 AX_DY = {0.1, -1 / 3, 6e6 + 0.3}  # members of the R alphabet; everything else is dyadic
+# fallback forms: not given / scalar r (x: +r, y: -r) / per-axis equal to the measured spacing / per-axis DIFFERENT
+# from the measured spacing with flipped sign / explicit zero
+AX_MODES = ("none", "scalar", "xy", "xy-other", "zero")
+AX_ENCS = ("f32", "i64", "xarray", "strided", "readonly", "2000", "noise+", "noise-")
+AX_ONE = tuple((n, res, x0) for n in AX_N for res in AX_RES for x0 in AX_X0)
+AX_FEW = ((1, 10.0, 5e5), (16, -30.0, 5e5), (2000, 0.25, -7.5), (3, 0.1, 6e6 + 0.3), (2, 1.0, 0.0))
 
 
 def gen_axis():
-    one = [(n, res, x0) for n in AX_N for res in AX_RES for x0 in AX_X0]
-    for ax in one:
-        for ay in one:
-            for mode in ("none", "scalar", "xy"):
-                if mode != "none" and ax[0] > 1 and ay[0] > 1 and (ax[0], ay[0]) != (2, 3):
-                    continue  # fallback is irrelevant for n >= 2; keep one representative
-                yield (ax, ay, mode)
-    yield ((0, 1.0, 0.0), (3, 1.0, 0.0), "none")
-    yield ((3, 1.0, 0.0), (0, 1.0, 0.0), "xy")
+    for ax in AX_ONE:
+        for ay in AX_ONE:
+            for mode in AX_MODES:
+                if mode != "none" and ax[0] > 1 and ay[0] > 1 and (ax[0], ay[0]) not in ((2, 3), (16, 2)):
+                    continue  # fallback must be ignored for n >= 2; two representatives
+                yield (ax, ay, mode, "f64")
+    # other encodings of the same labels; a single-label axis next to a long one
+    for ax in AX_ONE:
+        for ay in AX_FEW:
+            for mode in ("none", "xy-other"):
+                for enc in AX_ENCS:
+                    yield (ax, ay, mode, enc)
+                    yield (ay, ax, mode, enc)
+    yield ((0, 1.0, 0.0), (3, 1.0, 0.0), "none", "f64")
+    yield ((3, 1.0, 0.0), (0, 1.0, 0.0), "xy", "f64")
 
 
 def _labels(n, res, x0):
     return np.array([x0 + (i + 0.5) * res for i in range(n)], dtype="float64")
 
 
+def _ax_encode(lab, enc, which):
+    """same labels in another container / dtype; None when the encoding cannot hold these values"""
+    if enc == "f64":
+        return lab
+    if enc == "f32":
+        out = lab.astype("float32")
+        return out if np.array_equal(out.astype("float64"), lab) else None
+    if enc == "i64":
+        out = lab.astype("int64")
+        return out if np.array_equal(out.astype("float64"), lab) else None
+    if enc == "xarray":
+        import xarray as xr  # pylint: disable=import-outside-toplevel
+
+        return xr.DataArray(lab, dims=(which,))
+    if enc == "strided":
+        big = np.full(lab.size * 2 + 1, 1e30)
+        big[1::2] = lab
+        return big[1::2]
+    if enc == "readonly":
+        out = lab.copy()
+        out.setflags(write=False)
+        return out
+    if enc == "2000":
+        return lab
+    if enc in ("noise+", "noise-"):
+        # +-1 ulp on every other label (incl. the last one): still "regularly spaced" to within rounding
+        out = lab.copy()
+        for i in range(1, out.size, 2):
+            out[i] = math.nextafter(out[i], math.inf if enc == "noise+" else -math.inf)
+        if out.size > 1:
+            out[-1] = math.nextafter(out[-1], math.inf if enc == "noise+" else -math.inf)
+        return out
+    raise ValueError(enc)
+
+
 def run_axis(case):
-    (nx, rx, x0), (ny, ry, y0), mode = case
-    xx, yy = _labels(nx, rx, x0), _labels(ny, ry, y0)
-    fb = None if mode == "none" else (abs(rx) if mode == "scalar" else resxy_(rx, ry))
+    (nx, rx, x0), (ny, ry, y0), mode, enc = case
+    xx0, yy0 = _labels(nx, rx, x0), _labels(ny, ry, y0)
+    xx, yy = _ax_encode(xx0, enc, "x"), _ax_encode(yy0, enc, "y")
+    if xx is None or yy is None:
+        return R(outcome=f"enc-n/a:{enc}", nontrivial=False)
+    noisy = enc.startswith("noise")
+    if noisy:
+        xx0, yy0 = xx, yy
+    if mode == "none":
+        fb, fbx, fby = None, None, None
+    elif mode == "scalar":
+        fb, fbx, fby = abs(rx), abs(rx), -abs(rx)
+    elif mode == "xy":
+        fb, fbx, fby = resxy_(rx, ry), rx, ry
+    elif mode == "xy-other":
+        fb, fbx, fby = resxy_(-2 * rx, 3 * ry), -2 * rx, 3 * ry
+    else:
+        fb, fbx, fby = 0.0, 0.0, 0.0
     must_raise = nx == 0 or ny == 0 or (mode == "none" and (nx == 1 or ny == 1))
+    keep = (np.array(xx0, copy=True), np.array(yy0, copy=True))
     if must_raise:
         r = R(outcome="raises", nontrivial=False)
         try:
@@ -851,38 +1150,53 @@ def run_axis(case):
         except ValueError:
             pass
         return r
-    A = M.affine_from_axis(xx, yy, fb)
-    exact = not ({rx, x0, ry, y0} & AX_DY)
-    r = R(outcome=f"{'D' if exact else 'R'}:{'single' if 1 in (nx, ny) else 'multi'}:{mode}:{sgn(rx)}{sgn(ry)}")
-    what = f"affine_from_axis(x: n={nx} res={rx!r} x0={x0!r}; y: n={ny} res={ry!r} y0={y0!r}; fallback={fb}) -> {tuple(A)[:6]!r}"
+    what = f"affine_from_axis(x: n={nx} res={rx!r} x0={x0!r}; y: n={ny} res={ry!r} y0={y0!r}; labels as {enc}; fallback={fb})"
+    try:
+        A = M.affine_from_axis(xx, yy, fb)
+    except ValueError as e:
+        r = R(outcome="raised:ValueError")
+        return r.fail(f"affine_from_axis:fallback-rejected:{mode}", what + f" raises ValueError: {e}")
+    what += f" -> {tuple(A)[:6]!r}"
+    exact = not ({rx, x0, ry, y0} & AX_DY) and not noisy
+    r = R(outcome=f"{'D' if exact else 'R'}:{'single' if 1 in (nx, ny) else 'multi'}:{mode}:{enc}:{sgn(rx)}{sgn(ry)}")
+    if not (np.array_equal(np.asarray(xx), keep[0]) and np.array_equal(np.asarray(yy), keep[1])):
+        r.fail("affine_from_axis:input-modified", what)
     if A.b != 0 or A.d != 0:
         r.fail("affine_from_axis:not-axis-aligned", what)
-    # pixel size: from the labels for n >= 2, from the fallback for n == 1 (scalar r means x: +r, y: -r)
-    want_rx = rx if nx > 1 else (abs(rx) if mode == "scalar" else rx)
-    want_ry = ry if ny > 1 else (-abs(rx) if mode == "scalar" else ry)
-    # on R the spacing of the labels is that of their binary64 values: (last - first) / (n - 1) in rationals
-    if not exact:
+    # pixel size: measured from the labels for n >= 2 (whatever the fallback says), the fallback for n == 1
+    want_rx = rx if nx > 1 else fbx
+    want_ry = ry if ny > 1 else fby
+    if not exact:  # the spacing of the binary64 labels themselves: (last - first) / (n - 1) in rationals
         if nx > 1:
-            want_rx = float((Fr(float(xx[-1])) - Fr(float(xx[0]))) / (nx - 1))
+            want_rx = float((Fr(float(xx0[-1])) - Fr(float(xx0[0]))) / (nx - 1))
         if ny > 1:
-            want_ry = float((Fr(float(yy[-1])) - Fr(float(yy[0]))) / (ny - 1))
-    for name, got, want in (("x", A.a, want_rx), ("y", A.e, want_ry)):
+            want_ry = float((Fr(float(yy0[-1])) - Fr(float(yy0[0]))) / (ny - 1))
+    for name, got, want, n_ in (("x", A.a, want_rx, nx), ("y", A.e, want_ry, ny)):
         if (got != want) if exact else (abs(got - want) > 1e-9 * abs(want)):
-            r.fail(f"affine_from_axis:resolution:{name}:{'single' if (nx if name == 'x' else ny) == 1 else 'multi'}",
+            r.fail(f"affine_from_axis:resolution:{name}:{'single' if n_ == 1 else 'multi'}:{mode if n_ == 1 or mode == 'none' else 'fallback-given'}",
                    what + f": {name} pixel size {got!r}, want {want!r}")
-    # labels are pixel centres
-    for name, lab, idx in (("x", xx, 0), ("y", yy, 1)):
-        for i, v in enumerate(lab.tolist()):
+    # labels are pixel centres; slack on R: ulps of the label (labels are rounded individually) + 1e-9 pixel
+    for name, lab, idx in (("x", xx0, 0), ("y", yy0, 1)):
+        lab = lab.tolist()
+        px = abs(A.a if idx == 0 else A.e)
+        step = max(1, len(lab) // 16)
+        for i in list(range(0, len(lab), step)) + [len(lab) - 1]:
+            v = lab[i]
             g = (A * (i + 0.5, i + 0.5))[idx]
-            px = abs(A.a if idx == 0 else A.e)
-            if (g != v) if exact else (abs(g - v) > 1e-9 * (abs(v) + px)):
+            slack = (16 if noisy else 8) * math.ulp(max(abs(v), abs(lab[0]), abs(lab[-1]))) + 1e-9 * px
+            if (g != v) if exact else (abs(g - v) > slack):
                 r.fail(f"affine_from_axis:labels:{name}:{'D' if exact else 'R'}", what + f": centre of pixel {i} is {g!r}, label {v!r}")
                 break
-    # the 1-d helper agrees
-    if nx > 1:
-        res1, off1 = M.data_resolution_and_offset(xx)
-        if (res1, off1) != (A.a, A.c):
-            r.fail("data_resolution_and_offset:differs", what + f" vs {(res1, off1)!r}")
+    # the 1-d helper is the same computation per axis (differential), also through keyword / positional fallback
+    for name, lab, n_, fbv, got in (("x", xx, nx, fbx, (A.a, A.c)), ("y", yy, ny, fby, (A.e, A.f))):
+        one = M.data_resolution_and_offset(lab, fbv) if fbv is not None else M.data_resolution_and_offset(lab)
+        if tuple(one) != got:
+            r.fail(f"data_resolution_and_offset:differs:{name}", what + f" vs data_resolution_and_offset -> {tuple(one)!r}")
+    # same request again and on the plain float64 labels: identical answer
+    if tuple(M.affine_from_axis(xx, yy, fb))[:6] != tuple(A)[:6]:
+        r.fail("affine_from_axis:second-call-differs", what)
+    if enc not in ("f64", "noise+", "noise-") and tuple(M.affine_from_axis(xx0, yy0, fb))[:6] != tuple(A)[:6]:
+        r.fail(f"affine_from_axis:encoding:{enc}", what + f" but float64 labels give {tuple(M.affine_from_axis(xx0, yy0, fb))[:6]!r}")
     return r
 
 
@@ -890,13 +1204,14 @@ def run_axis(case):
 # slices bin1d-D / bin1d-R
 # ---------------------------------------------------------------------------------------------
 B_IDX = tuple(range(-5, 6))
-BD_SZ = (1.0, 0.25, 10.0, 13.5, 2.0**-10, 3.0)
-BD_ORG = (0.0, 20.0, -7.5, 2.0**20 + 0.5, -1000.25)
+BD_SZ = (1.0, 0.25, 10.0, 13.5, 2.0**-10, 3.0, 2.0**20)
+BD_ORG = (0.0, 20.0, -7.5, 2.0**20 + 0.5, -1000.25, 2.0**50, -(2.0**50) + 0.25, 0.375)
 BD_E = 2.0**-20
-BD_F = (0.0, BD_E, 0.25, 0.5, 0.75, 1 - BD_E)
-BR_SZ = (0.1, 1 / 3, 13.3, 30.0, 0.5)
-BR_ORG = (0.0, 0.3, 23.5, -1e6 + 0.4, 5e5, 6e6 + 0.3)
-BR_F = (1e-6, 1e-3, 0.25, 0.5, 0.75, 0.999, 1 - 1e-6)
+BD_F = (0.0, BD_E, 0.25, 0.5, 0.75, 1 - BD_E, "edge+ulp", "edge-ulp")
+BR_SZ = (0.1, 1 / 3, 13.3, 30.0, 0.5, 4.5e-6, 1e5)
+BR_ORG = (0.0, 0.3, 23.5, -1e6 + 0.4, 5e5, 6e6 + 0.3, -0.7, 1e15)
+BR_F = (1e-9, 1e-6, 1e-3, 0.25, 0.5, 0.75, 0.999, 1 - 1e-6, 1 - 1e-9)
+B_ENCS = ("float", "np", "int")
 
 
 def gen_bin(szs, orgs, fs):
@@ -913,13 +1228,30 @@ def gen_bin(szs, orgs, fs):
 def run_bin_d(case):
     sz, org, d, idx, f = case
     b = M.Bin1D(sz, org, d)
-    lo = float(Fr(org) + idx * d * Fr(sz))
-    hi = float(Fr(lo) + Fr(sz))
-    x = float(Fr(lo) + Fr(f) * Fr(sz))
-    assert Fr(lo) == Fr(org) + idx * d * Fr(sz) and Fr(x) == Fr(lo) + Fr(f) * Fr(sz), case  # exact on D
+    LO = Fr(org) + idx * d * Fr(sz)
+    lo, hi = float(LO), float(LO + Fr(sz))
+    if Fr(lo) != LO or Fr(hi) != LO + Fr(sz):
+        return R(outcome="D:not-representable", nontrivial=False)
     dname = "fwd" if d > 0 else "rev"
-    r = R(outcome=f"D:{dname}:{'edge' if f == 0 else 'inside'}")
     what = f"Bin1D({sz!r},{org!r},{d})"
+    if isinstance(f, str):
+        # one ulp either side of a shared edge: x - origin may round onto the edge, so either adjacent bin is right
+        x = math.nextafter(lo, math.inf if f == "edge+ulp" else -math.inf)
+        r = R(outcome=f"D:{dname}:{f}")
+        k = b.bin(x)
+        q = (Fr(x) - Fr(org)) / Fr(sz)
+        j = math.floor(q)  # exact: x lies in [j, j+1) bin widths from the origin, i.e. in bin d*j
+        near = 4 * Fr(math.ulp(max(abs(x), abs(org))))
+        ok = isinstance(k, int) and (d * k == j or (d * k == j - 1 and (q - j) * Fr(sz) <= near)
+                                     or (d * k == j + 1 and (j + 1 - q) * Fr(sz) <= near))
+        if not ok:
+            r.fail(f"Bin1D.bin:edge-ulp:{dname}", what + f".bin({x!r}) -> {k!r}, x is one ulp from the left edge of bin {idx}; exact bin {d * j}")
+        return r
+    X = LO + Fr(f) * Fr(sz)
+    x = float(X)
+    if Fr(x) != X:
+        return R(outcome="D:not-representable", nontrivial=False)
+    r = R(outcome=f"D:{dname}:{'edge' if f == 0 else 'inside'}")
     if tuple(b[idx]) != (lo, hi):
         r.fail(f"Bin1D.getitem:{dname}", what + f"[{idx}] -> {b[idx]!r}, want {(lo, hi)!r}")
     k = b.bin(x)
@@ -938,6 +1270,18 @@ def run_bin_d(case):
         r.fail(f"Bin1D.from_sample_bin:{dname}", f"from_sample_bin({idx},{(lo, hi)!r},{d}) -> ({b2.sz!r},{b2.origin!r},{b2.direction}) != {what}")
     if b == M.Bin1D(sz, org, -d) or b == M.Bin1D(sz * 2, org, d) or b == M.Bin1D(sz, org + sz, d) or b == (sz, org, d):
         r.fail("Bin1D.eq:too-weak", what + " equals a different binning")
+    # same values in other encodings (numpy scalars, Python ints where integral) and asked twice
+    for enc in ("np", "int"):
+        if enc == "int" and not (float(sz).is_integer() and float(org).is_integer() and x.is_integer()):
+            continue
+        cv = (lambda v: np.float64(v)) if enc == "np" else int
+        be = M.Bin1D(cv(sz), cv(org), d)
+        ke = be.bin(cv(x))
+        ie = np.int64(idx) if enc == "np" else idx
+        if ke != k or not isinstance(ke, int) or tuple(be[ie]) != (lo, hi) or not (be == b):
+            r.fail(f"Bin1D:encoding:{enc}", what + f" built from {enc} values: bin({x!r}) -> {ke!r} (float: {k}), [{idx}] -> {be[ie]!r}")
+    if b.bin(x) != k or (b.sz, b.origin, b.direction) != (sz, org, d):
+        r.fail("Bin1D:second-call-differs", what + f".bin({x!r})")
     return r
 
 
@@ -951,12 +1295,15 @@ def run_bin_r(case):
     q = (Fr(x) - O) / S
     j = math.floor(q)
     margin = min(q - j, j + 1 - q) * S
-    slack = REL * (abs(Fr(x)) + abs(O) + S)
-    inside = margin >= slack
-    want = d * j
-    r = R(outcome=f"R:{dname}:{'inside' if inside else 'too-close-to-edge'}", nontrivial=inside)
     lo, hi = b[idx]
     wlo = O + idx * d * S
+    # slack: ulps of the largest coordinate involved (x - origin is rounded once) + 1e-9 of a bin
+    ulps = Fr(4 * math.ulp(max(abs(x), abs(org), abs(float(wlo)), abs(float(wlo + S)))))
+    slack = ulps + REL * S
+    inside = margin >= slack
+    want = d * j
+    szc = "tiny-sz" if sz < 1e-3 else ("huge-sz" if sz > 1e3 else "sz")
+    r = R(outcome=f"R:{dname}:{szc}:{'inside' if inside else 'too-close-to-edge'}", nontrivial=inside)
     if abs(Fr(lo) - wlo) > slack or abs(Fr(hi) - wlo - S) > slack:
         r.fail(f"Bin1D.getitem:{dname}:R", what + f"[{idx}] -> {(lo, hi)!r}, want {(float(wlo), float(wlo + S))!r}")
     k = b.bin(x)
@@ -965,6 +1312,9 @@ def run_bin_r(case):
             r.fail(f"Bin1D.bin:inside:{dname}:R", what + f".bin({x!r}) -> {k!r}, x lies {float(margin)!r} inside bin {want}")
     elif k not in (want, want - d, want + d):
         r.fail(f"Bin1D.bin:near-edge:{dname}:R", what + f".bin({x!r}) -> {k!r}, want {want} or a neighbour")
+    if not lo < hi:  # bins narrower than one ulp of the origin: the sample bin is not representable
+        r.outcome += ":bin<ulp"
+        return r
     b2 = M.Bin1D.from_sample_bin(idx, (lo, hi), d)
     if abs(Fr(b2.sz) - S) > slack or abs(Fr(b2.origin) - O) > slack * (1 + abs(idx)) or b2.direction != d:
         r.fail(f"Bin1D.from_sample_bin:{dname}:R", f"from_sample_bin({idx},{(lo, hi)!r},{d}) -> ({b2.sz!r},{b2.origin!r}) vs {what}")
@@ -983,9 +1333,11 @@ def slices(tier):
         e1.Slice("snap-grid-R", gen_sg_r, run_sg_r, "C08 realistic alphabet; exact rational oracle with 1e-9 slack"),
         e1.Slice("snap-scale", gen_ss, run_ss, "s in {n, 1/n, 1/(n+d)} +- deltas around each tolerance"),
         e1.Slice("snap-affine", gen_sa, run_sa, "scales x translations x shear entries around the three tolerances"),
+        e1.Slice("snap-affine-window", gen_sw, run_sw,
+                 "one component at a time at 0.9/0.999/1.001/1.1 x its tolerance, additive/multiplicative/reciprocal; is_affine_st"),
         e1.Slice("rws", gen_rws, run_rws, "all 2x2 over 8 values with det != 0, rot x shear x scale; ndarray and Affine"),
         e1.Slice("affine-pts", gen_afp, run_afp, "non-collinear 3/4/9-subsets of a 3x3 integer grid x frames x dyadic maps"),
-        e1.Slice("poly2d", gen_p2, run_p2, "triples, 2xk and kxm (k,m>=3) full grids x frames x affine/bilinear/biquadratic maps"),
+        e1.Slice("poly2d", gen_p2(tier), run_p2, "triples, 2xk and kxm (k,m>=3) full grids x frames x affine/bilinear/biquadratic maps"),
         e1.Slice("axis", gen_axis, run_axis, "regular labels n in {1,2,3,5,16} per axis, fallback forms, error cases"),
         e1.Slice("bin1d-D", gen_bin(BD_SZ, BD_ORG, BD_F), run_bin_d, "dyadic sizes/origins, idx -5..5, points at edges and inside; exact"),
         e1.Slice("bin1d-R", gen_bin(BR_SZ, BR_ORG, BR_F), run_bin_r, "realistic sizes/origins, points strictly inside bins"),
